@@ -8,7 +8,7 @@ V="$(cd "$(dirname "$0")/.." && pwd)"
 cd "$V"
 export PYTHONPATH="${YP_REPO:-/repo}" PYTHONHASHSEED=0
 mkdir -p coq/Gen coq/Spec coq/Proofs coq/Properties coq/Model build
-/venv/bin/python harness/tables.py
+if [ -z "$YP_SKIP_TABLES" ]; then /venv/bin/python harness/tables.py; fi
 tools/mkproject.sh
 if [ "$1" = "models-only" ]; then
   T=$(cd coq && find Lib Gen Model Spec -name '*.v' | LC_ALL=C sort | sed 's/\.v$/.vo/' | tr '\n' ' ')
